@@ -8,7 +8,8 @@ ID = "C16"
 LEAN_MODULES = ["Properties.C16"]
 THEOREMS = ["EngineModel.Properties.C16." + t for t in [
     "C16_observers_pure", "C16_observer_answer", "C16_observers_pure_any_plan", "C16_repeat", "C16_frame",
-    "C16_no_write_no_change"]]
+    "C16_no_write_no_change", "C16_api_observer", "C16_api_history", "C16_api_answers", "C16_crates_v1", "C16_crates_v2",
+    "C16_tracks_v2"]]
 ASSUMPTIONS = [
     "SqliteSemantics (modelled, Spec/Txn.lean): a statement SQLite classifies read-only (sqlite3_stmt_readonly) leaves "
     "the connection state as it was.  Checked on every monitored application against sqlite3_total_changes, the raw "
@@ -26,7 +27,11 @@ MANIFEST = dict(
          "operations (statement sequences on the modelled SQLite connection), an operation classified as observer — "
          "every statement it steps is read-only — is the identity on the connection state by proof, answers from the "
          "unchanged database, and any sequence of observers can be repeated / inserted / dropped without effect; "
-         "C16_no_write_no_change extends this to calls that open scopes but never write, under every fault plan. Tied to the code by applying "
+         "C16_no_write_no_change extends this to calls that open scopes but never write, under every fault plan; "
+         "C16_api_history / C16_api_answers (instances C16_crates_v1, C16_crates_v2, C16_tracks_v2) put the accessors of "
+         "the concrete API models (1.x crates, 2.x crates, 2.x tracks) into that alphabet: interleaved anywhere in a "
+         "history of the model's mutating calls they leave the state the mutating calls alone produce and answer from "
+         "it. Tied to the code by applying "
          "every read-only operation of database, crate, track, the engine entry points (database_exists, load_database, "
          "create_or_load_database on an existing library) and the 2.x table API twice on every visited state of "
          "generated histories on on-disk libraries: the observed statement-kind sequence of each application is decided "
@@ -36,13 +41,20 @@ MANIFEST = dict(
     note="Trusted/limits: the classification of a real statement as read-only is SQLite's sqlite3_stmt_readonly (checked "
          "against change counter, raw dump and file hash on every application, not proved); states are sampled "
          "(generated histories, every prefix), the for-all over states is proved for the model only; table-API states "
-         "are those reachable through the public API plus table-API setter perturbations.",
+         "are those reachable through the public API plus table-API setter perturbations (tableapi.touch).",
     technique="Lean 4 theorems over an operation/connection model + run-time monitors on the real library (link-time "
               "sqlite3_step wrapper, total_changes, raw dumps through the C API, SHA-256 of the files)",
     ref="6/C16")
 TRUSTED_EXTRA = ["harness/djv_wrap.cpp (sqlite3_step wrapper: statement kinds), harness/djv_monitors.cpp (observer "
                  "list, change counters, raw dumps, SHA-256), tools/monitors_gen.py (history generator)"]
 STATELESS = False
+SELF_TEST = {"recorded": "2026-09-29, scratch worktree of /repo, quick tier seed 1 (not re-run by the check)", "seeded_changes": {
+    "seeded/sv-C16-getter-cache (2.x filename() rewrites the filename column)": "caught: track.filename, sqlite3_total_changes grew",
+    "seeded/sv-C16-load-stamp (load_database increments a counter in Information)": "caught: engine.database_exists / load_database / create_or_load, SHA-256 of the files changed",
+    "seeded/sv-C16-verify-analyze (verify() runs ANALYZE; also killed by the unit-test suite)": "caught: db.verify, raw dump differs",
+    "seeded/sv-C16-exists-creates (database_exists through create_or_load_database)": "caught: engine.database_exists(no directory), a library appeared",
+    "seeded/sv-refactor-getter-in-scope (behaviour preserving)": "green (no-write, closed shape)",
+    "seeded/sv-refactor-reorder-writes (behaviour preserving)": "green"}}
 
 LETTER = {"r": "read", "w": "write", "b": "begin", "c": "commit", "k": "rollback"}
 
@@ -250,6 +262,140 @@ def grep_bypass():
     return hits
 
 
+# ------------------------------------------------------------------ static entry points x directory shapes
+import itertools
+
+DIR_SHAPES, SHAPE_WORD = G.DIR_SHAPES, G.SHAPE_WORD
+# entry points of the harness (c16.entries) -> the public function they call
+ENTRY_FUNCTION = {
+    "engine.database_exists": "database_exists", "engine.load_database": "load_database",
+    "engine.load_database(1-arg)": "load_database", "engine.load_and_observe": "load_database",
+    "engine.create_or_load_database(1.x)": "create_or_load_database",
+    "engine.create_or_load_database(2.x)": "create_or_load_database",
+    "engine.create_or_load_database(3-arg)": "create_or_load_database",
+    "v2.engine_library.exists": "exists", "v2.engine_library.load": "load", "v2.engine_library.load_and_observe": "load"}
+# public functions that take a library directory: observers (never modify it), conditional observers
+# (create_or_load_database: an observer whenever m.db or Database2/m.db is present) and creators
+DIR_OBSERVERS = {"database_exists", "load_database", "load", "exists"}
+DIR_CONDITIONAL = {"create_or_load_database"}
+DIR_CREATORS = {"create_database", "create_database_from_scripts", "create"}
+ENGINE_HEADERS_KNOWN = {"engine.hpp", "engine_schema.hpp", "base_engine_library.hpp", "v2/engine_library.hpp",
+                        "v2/track_table.hpp", "v2/playlist_table.hpp", "v2/playlist_entity_table.hpp",
+                        "v2/information_table.hpp", "v2/change_log_table.hpp", "v2/beat_data_blob.hpp", "v2/loops_blob.hpp",
+                        "v2/overview_waveform_data_blob.hpp", "v2/quick_cues_blob.hpp", "v2/track_data_blob.hpp"}
+LIB_METHODS_OBS = {"verify", "directory", "schema", "database", "track", "playlist", "playlist_entity", "information",
+                   "change_log", "load", "exists"}
+LIB_METHODS_OTHER = {"create", "create_temporary", "engine_library", "base_engine_library", "make_shared", "move"}
+
+
+shape_text, library_present, parse_probe = G.shape_text, G.library_present, G.parse_probe
+
+
+def judge_probe(sh, entry, d):
+    """-> [(tag, text)]: the property text on one probe (observing = directory listing unchanged, same answer twice)"""
+    fn = ENTRY_FUNCTION.get(entry, entry)
+    if fn in DIR_CONDITIONAL and not library_present(sh):
+        return []       # nothing there: create_or_load_database is a creator on this shape (C10's subject)
+    out = []
+    if d["before"] != d["after"]:
+        out.append(("modified", "the directory changed while %s was applied to a directory with %s: [%s] -> [%s]" % (
+            entry, shape_text(sh), d["l0"][:160], d["l1"][:200])))
+    if d["a1"] != d["a2"]:
+        out.append(("answers-differ", "%s answered %s, then %s on a directory with %s" % (entry, d["a1"][:60], d["a2"][:60], shape_text(sh))))
+    return out
+
+
+def scan_engine_headers(seen_functions):
+    """every public header under include/djinterop/engine (any namespace: engine, engine::v1, engine::v2, ...) is a
+    known one, and every function in them that takes a directory is classified and (observers) was exercised"""
+    problems = []
+    root = os.path.join(REPO, "include", "djinterop", "engine")
+    found = set()
+    for dp, _, fs in os.walk(root):
+        for f in fs:
+            rel = os.path.relpath(os.path.join(dp, f), root)
+            found.add(rel)
+            if rel not in ENGINE_HEADERS_KNOWN:
+                problems.append("public header engine/%s is not classified (new namespace / new entry points?)" % rel)
+                continue
+            txt = open(os.path.join(dp, f), errors="replace").read()
+            txt = re.sub(r"/\*.*?\*/", "", txt, flags=re.S)
+            txt = "\n".join(l.split("//")[0] for l in txt.split("\n"))
+            for m in re.finditer(r"\b([a-z_][a-z0-9_]*)\s*\(([^()]*)\)", txt):
+                name, args = m.group(1), m.group(2)
+                if not re.search(r"std::string\s*&\s*(db_)?directory\b", args):
+                    continue
+                if name in DIR_CREATORS:
+                    continue
+                if name in DIR_OBSERVERS | DIR_CONDITIONAL:
+                    if name not in seen_functions:
+                        problems.append("%s (engine/%s) takes a directory but was not exercised on the directory shapes" % (name, rel))
+                else:
+                    problems.append("%s (engine/%s) takes a directory and is not classified (observer / creator?)" % (name, rel))
+    for rel in ("v2/engine_library.hpp", "base_engine_library.hpp"):
+        ms = header_methods(os.path.join("engine", rel))
+        for m in ms or []:
+            if m not in LIB_METHODS_OBS | LIB_METHODS_OTHER and not m.endswith("_table"):
+                problems.append("engine/%s: member %s is not classified (observer or mutator?)" % (rel, m))
+    return problems
+
+
+def dir_shape_stream(ctx, rng):
+    """Every static entry point that takes a directory, applied twice to every directory shape (fresh copy each),
+    with a recursive listing + SHA-256 of every file before / after as the oracle."""
+    thorough = ctx.tier == "thorough"
+    pairs = [(G.SCHEMAS_V1[-1 - (ctx.seed % 2)], G.SCHEMAS_V2[-1])] if not thorough else \
+        [(G.SCHEMAS_V1[-1], G.SCHEMAS_V2[-1]), (G.SCHEMAS_V1[0], G.SCHEMAS_V2[0]), (rng.choice(G.SCHEMAS_V1[1:-1]), rng.choice(G.SCHEMAS_V2[1:-1])),
+         (G.SCHEMAS_V1[-2], rng.choice(G.SCHEMAS_V2))]
+    if not thorough:
+        pairs.append((rng.choice(G.SCHEMAS_V1[:-2]), rng.choice(G.SCHEMAS_V2[:-1])))
+    ent_out, _ = runner.run_harness_script(["c16.entries"])
+    entries = ent_out[0][3:].split(",") if ent_out and ent_out[0].startswith("ok ") else []
+    res = {"violations": [], "divergences": [], "evaluations": 0, "hist": {}, "probes": []}
+    if not entries:
+        res["divergences"].append({"input": "c16.entries", "impl": str(ent_out)[:80], "model": "the harness lists its directory entry points"})
+        return res
+    scripts, meta = [], []
+    for pi, (s1, s2) in enumerate(pairs):
+        # the second quick pair samples the shapes (every shape letter in every position still occurs)
+        shapes = DIR_SHAPES if (thorough or pi == 0) else ["N0"] + rng.sample(DIR_SHAPES[1:], 16)
+        for sh in shapes:
+            scripts.append(["c16.probe %s %s %s %s" % (sh, en, s1, s2) for en in entries])
+            meta.append((sh, s1, s2))
+    outs = runner.run_harness(scripts, watchdog=30)
+    answers = {}
+    bad = {}        # (entry, tag) -> [(shape, line, text)]
+    for (sh, s1, s2), sc, (o, _) in zip(meta, scripts, outs):
+        for en, line, x in zip(entries, sc, o):
+            d = parse_probe(x)
+            res["evaluations"] += 1
+            if d is None:
+                res["divergences"].append({"input": line, "impl": x[:100], "model": "the probe answers"})
+                continue
+            cls = re.sub(r"_schema_\w+|_[0-9a-f]{16}.*", "", d["a1"])[:40]
+            answers.setdefault(en, {}).setdefault(cls, 0)
+            answers[en][cls] += 1
+            res["probes"].append((sh, en, s1, s2, d))
+            for tag, text in judge_probe(sh, en, d):
+                bad.setdefault((en, tag), []).append((sh, line, text))
+    for (en, tag), lst in sorted(bad.items()):
+        sh, line, text = lst[0]
+        shapes_hit = sorted({x[0] for x in lst})
+        res["violations"].append({
+            "tag": tag, "signature": {"family": "dir", "op": en, "effect": tag, "shapes": ",".join(shapes_hit)},
+            "header": {"kind": "script", "what": "%s (%d directory shapes: %s)" % (text[:300], len(shapes_hit), ",".join(shapes_hit)[:120])},
+            "body": [line, "# entry point: %s   directory: %s" % (en, shape_text(sh)), "# verdict: %s" % text,
+                     "# all shapes showing it: %s" % ",".join(shapes_hit)]})
+    seen_fn = {ENTRY_FUNCTION.get(e, e) for e in entries}
+    for pb in scan_engine_headers(seen_fn):
+        res["divergences"].append({"input": "public headers under include/djinterop/engine", "impl": pb,
+                                   "model": "every public function that takes a directory is an exercised observer or a creator"})
+    res["hist"] = {"schema_pairs": ["%s+%s" % p for p in pairs], "shapes": len(DIR_SHAPES), "entry_points": entries,
+                   "probes": res["evaluations"], "answers_per_entry": answers,
+                   "create_or_load_judged_as_observer_on": sum(1 for sh in DIR_SHAPES if library_present(sh))}
+    return res
+
+
 # ------------------------------------------------------------------ the tie
 def mk_violation(schema, body, tag, observer, text, state):
     fam = G.family(schema)
@@ -282,20 +428,50 @@ def attribute(schema, hist_lines, state, group, tag):
     return culprits
 
 
+def run_corpus(ctx):
+    """corpus/C16/*.txt: scripts that once showed a violation on a seeded change of /repo (kept as regression inputs):
+    each is replayed first and must satisfy the oracle on the current tree."""
+    d = os.path.join(VERIF, "corpus", ID)
+    res, viol = {}, []
+    if not os.path.isdir(d):
+        return res, viol
+    for f in sorted(x for x in os.listdir(d) if x.endswith(".txt")):
+        txt = open(os.path.join(d, f)).read()
+        head, body = txt.split("----\n", 1)
+        hdr = dict(l.split(": ", 1) for l in head.split("\n") if ": " in l)
+        lines = [l for l in body.split("\n") if l.strip()]
+        ok, text = replay(ctx, hdr, lines)
+        res[f] = "clean" if ok else "violated"
+        if not ok:
+            probs = [l for l in text.split("\n") if l.startswith("PROBLEM")]
+            viol.append({"tag": "corpus", "signature": {"family": "corpus", "op": f, "effect": "violated"},
+                         "header": {"kind": "script", "what": "corpus witness %s: %s" % (f, "; ".join(probs)[:300])},
+                         "body": [l for l in lines if not l.startswith("# ")]})
+    return res, viol
+
+
 def tie(ctx):
     rng = random.Random(ctx.seed * 1000003 + 16)
     thorough = ctx.tier == "thorough"
     schemas = G.pick_schemas(ctx.tier, ctx.seed)
     n_hist = 2
-    lengths = [22, 30] if thorough else [16, 22]
+    lengths = [70, 36] if thorough else [62, 22]    # history 0: seed + enrich + sweep (every mutating operation) + random
     cases = []
     for sch in schemas:
         for hi in range(n_hist):
-            h = G.gen_history(rng, sch, lengths[hi % len(lengths)])
-            cases.append({"schema": sch, "hist": list(h.lines), "ops": dict(h.ops_used)})
+            h = G.gen_history(rng, sch, lengths[hi % len(lengths)], enrich="early" if hi % 2 == 0 else False, sweep=hi % 2 == 0)
+            lines = list(h.lines)
+            if G.family(sch) == "v2":
+                # rows the high-level API never produces: table-API setters on every track, twice along the history
+                for pos, n in ((len(lines) * 2 // 3, rng.randrange(1000)), (len(lines) // 3, rng.randrange(1000))):
+                    lines.insert(pos, "tableapi.touch %d" % n)
+                h.ops_used["table-API setters (tableapi.touch)"] = 2
+            cases.append({"schema": sch, "hist": lines, "ops": dict(h.ops_used)})
     scripts = [build_script(c["schema"], c["hist"]) for c in cases]
     outs = runner.run_harness(scripts, watchdog=60)
     violations, divergences = [], []
+    corpus_res, corpus_viol = run_corpus(ctx)
+    violations += corpus_viol
     shape_use = {}      # shape -> set of (family, observer)
     obs_apps, obs_shapes = {}, {}
     seen_core, seen_table, seen_static = set(), set(), set()
@@ -404,6 +580,31 @@ def tie(ctx):
         if key in obs_shapes and key not in nonobs and name not in ("observers", "staticops", "tableapi.reads"):
             divergences.append({"input": key, "impl": "modification observed", "model": "every observed shape is read-only: "
                                 "C16_observers_pure says unchanged (SQLite's read-only classification is wrong, or a write bypasses sqlite3_step)"})
+    # ---- database_exists where there is nothing to load (no directory, empty directory, both layouts present):
+    # it must answer, twice the same, and leave the directory as it is (in particular create nothing)
+    nolib = []
+    for pres in ("N0", "N", "LD"):
+        s1, s2 = rng.choice(G.SCHEMAS_V1), rng.choice(G.SCHEMAS_V2)
+        nolib.append((pres, ["c10.dir %s %s %s" % (pres, s1, s2), "dirsha", "exists", "exists", "dirsha"]))
+    for (pres, sc), (o, _) in zip(nolib, runner.run_harness([x[1] for x in nolib])):
+        evaluations += 1
+        name = "engine.database_exists(%s)" % {"N0": "no directory", "N": "empty directory", "LD": "both layouts"}[pres]
+        seen_static.add(name)
+        if any(not x.startswith("ok") for x in o):
+            divergences.append({"input": " | ".join(sc), "impl": " | ".join(x[:40] for x in o), "model": "monitor commands answer"})
+        elif o[1] != o[4]:
+            violations.append(mk_violation(sc[0].split(" ")[3], sc, "modified", name,
+                                           "the directory content changed while database_exists was applied (%s -> %s)" % (
+                                               o[1].split(" ", 2)[2], o[4].split(" ", 2)[2]), 0))
+        elif o[2] != o[3]:
+            violations.append(mk_violation(sc[0].split(" ")[3], sc, "answers-differ", name, "database_exists answered %s then %s" % (o[2], o[3]), 0))
+    ds = dir_shape_stream(ctx, rng)
+    violations += ds["violations"]
+    divergences += ds["divergences"]
+    evaluations += ds["evaluations"]
+    for sh, en, s1, s2, d in ds["probes"]:
+        if sh != "N0" and sh != "aaa":
+            distinct.add((s1 + "+" + s2, sh, en))
     missing = check_completeness(seen_core, seen_table, seen_static)
     for m in missing:
         divergences.append({"input": "observer list vs public headers", "impl": m, "model": "every public member function is classified and every observer exercised"})
@@ -425,7 +626,7 @@ def tie(ctx):
                 "non-trivial = the state holds at least one crate or track",
         "samples": [sc[:2] + ["..."] + sc[-8:] for sc in scripts[:2]],
         "histograms": {
-            "schemas": schemas, "histories": len(cases), "history_crashed": crashed, "history_ops_rejected(states after a throwing call are visited too)": rejected, "states_visited": states_visited,
+            "schemas": schemas, "histories": len(cases), "corpus": corpus_res, "history_crashed": crashed, "history_ops_rejected(states after a throwing call are visited too)": rejected, "states_visited": states_visited,
             "state_sizes(crates+tracks)": {str(k): v for k, v in sorted(state_sizes.items(), key=lambda kv: str(kv[0]))},
             "history_operations": hist_ops,
             "observers_core": sorted(seen_core), "observers_static": sorted(seen_static), "observers_table_api": len(seen_table),
@@ -434,9 +635,11 @@ def tie(ctx):
             "distinct_shapes": len(shapes), "lean_verdicts_on_shapes": lean_hist,
             "shapes_per_observer(sample)": {k: sorted(v)[:4] for k, v in sorted(obs_shapes.items())[:400] if len(v) > 1 or any(x not in ("r", "-") for x in v)},
             "completeness_problems": missing,
+            "directory_shapes": ds["hist"],
         },
         "divergences": divergences[:20],
         "violations": vout,
+        "self_test": SELF_TEST,
     }
 
 
@@ -446,6 +649,21 @@ def replay(ctx, hdr, body):
     text, ok = [], True
     for l, o in zip(script, outs):
         text.append("%s\n   -> %s" % (l[:160], o[:400]))
+    for l, o in zip(script, outs):
+        if l.startswith("c16.probe "):
+            _, sh, en = l.split(" ")[:3]
+            d = parse_probe(o)
+            if d is None:
+                ok = False
+                text.append("PROBLEM: the probe did not answer: %s" % o[:100])
+            else:
+                for tag, t in judge_probe(sh, en, d):
+                    ok = False
+                    text.append("PROBLEM %s: %s" % (tag, t))
+    if script and script[0].startswith("c10.dir") and len(outs) >= 5:
+        if outs[1] != outs[4] or outs[2] != outs[3]:
+            ok = False
+            text.append("PROBLEM: directory %s -> %s, answers %s / %s" % (outs[1][:30], outs[4][:30], outs[2], outs[3]))
     for st, ls, os_ in split_states(script, outs):
         problems, _ = judge_state(ls, os_)
         for tag, who, t in problems:
